@@ -1345,7 +1345,6 @@ package mcp
 // -32601); a call to a notification method, a notification to a call method and missing required params are invalid
 // requests (-32600); only a request that passes all four is handed to its method.
 //@ func checkRequest [C02]
-//@   requires req != nil
 //@   ensures @unknown-method !inDom(infos, req.Method) ==> result.1 != nil && errIs(result.1, jsonrpc2.ErrNotHandled)
 //@   ensures @known-method-accepted-or-invalid inDom(infos, req.Method) ==> result.1 == nil || errIs(result.1, jsonrpc2.ErrInvalidRequest)
 //@   ensures @accepted-request-gets-its-own-method-info result.1 == nil ==> inDom(infos, req.Method) && result.0 == infos[req.Method]
